@@ -10,6 +10,7 @@ use std::ffi::CString;
 use std::io;
 use std::os::unix::io::RawFd;
 use std::panic::{catch_unwind, AssertUnwindSafe};
+use std::time::Duration;
 use std::sync::Arc;
 
 use fbrh::prng::Prng;
@@ -265,6 +266,24 @@ where
     F::Inode: From<u64>,
     F::Handle: From<u64>,
 {
+    api_read_gated(fs, ino, handle, plus, size, off, err_at, None)
+}
+
+type GateEnds = (std::sync::mpsc::SyncSender<()>, std::sync::mpsc::Receiver<()>);
+
+#[allow(clippy::too_many_arguments)]
+fn api_read_gated<F: FileSystem>(fs: &F, ino: u64, handle: u64, plus: bool, size: u32, off: u64, err_at: Option<u64>, gate: Option<GateEnds>) -> Rd
+where
+    F::Inode: From<u64>,
+    F::Handle: From<u64>,
+{
+    let mut gate = gate;
+    let mut park = move || {
+        if let Some((entered, go)) = gate.take() {
+            let _ = entered.send(());
+            let _ = go.recv_timeout(Duration::from_secs(10));
+        }
+    };
     let ctx = Context::default();
     let mut written = 0usize;
     let mut offered = 0u64;
@@ -272,6 +291,7 @@ where
     let res = catch_unwind(AssertUnwindSafe(|| {
         if plus {
             fs.readdirplus(&ctx, ino.into(), handle.into(), size, off, &mut |d: DirEntry, e: Entry| {
+                park();
                 let k = offered;
                 offered += 1;
                 if err_at == Some(k) {
@@ -287,6 +307,7 @@ where
             })
         } else {
             fs.readdir(&ctx, ino.into(), handle.into(), size, off, &mut |d: DirEntry| {
+                park();
                 let k = offered;
                 offered += 1;
                 if err_at == Some(k) {
@@ -458,6 +479,11 @@ trait Backend {
     fn opendir(&self, ino: u64) -> Result<u64, i32>;
     fn releasedir(&self, ino: u64, h: u64) -> Result<(), i32>;
     fn read(&self, srv_mode: bool, ino: u64, h: u64, plus: bool, size: u32, off: u64, err_at: Option<u64>, slack: usize) -> Rd;
+    /// two requests on ONE handle from two threads: `a` is parked in its first entry callback (the
+    /// directory lock is released by then) while `b` runs completely; None = not supported here
+    fn read_pair(&self, _ino: u64, _h: u64, _a: &RdOp, _b: &RdOp) -> Option<(Rd, Rd)> {
+        None
+    }
     fn alive(&self, ino: u64) -> bool;
     fn forget(&self, ino: u64, n: u64);
 }
@@ -488,6 +514,28 @@ where
         } else {
             api_read(&*self.fs, ino, h, plus, size, off, err_at)
         }
+    }
+    fn read_pair(&self, ino: u64, h: u64, a: &RdOp, b: &RdOp) -> Option<(Rd, Rd)> {
+        use std::sync::mpsc::sync_channel;
+        let (etx, erx) = sync_channel::<()>(1);
+        let (gtx, grx) = sync_channel::<()>(1);
+        let fs = &*self.fs;
+        let mut out = None;
+        std::thread::scope(|sc| {
+            let ta = sc.spawn(move || api_read_gated(fs, ino, h, a.plus, a.size, a.off, a.err_at, Some((etx, grx))));
+            let t0 = std::time::Instant::now();
+            while t0.elapsed() < Duration::from_millis(500) {
+                if erx.try_recv().is_ok() || ta.is_finished() {
+                    break;
+                }
+                std::thread::sleep(Duration::from_micros(200));
+            }
+            let rb = api_read(fs, ino, h, b.plus, b.size, b.off, b.err_at);
+            let _ = gtx.send(());
+            let ra = ta.join().unwrap_or(Rd::Panic);
+            out = Some((ra, rb));
+        });
+        out
     }
     fn alive(&self, ino: u64) -> bool {
         self.fs.getattr(&Context::default(), ino.into(), None).is_ok()
@@ -554,11 +602,44 @@ impl<'a> Case<'a> {
             }
             return;
         }
+        if let Some(rest) = op.strip_prefix("pp~") {
+            // two requests on one handle from two threads (see Backend::read_pair); the model runs
+            // them one after the other
+            let parts: Vec<&str> = rest.split('~').collect();
+            let (Some(a), Some(b)) = (parts.first().and_then(|x| parse_rd(x)), parts.get(1).and_then(|x| parse_rd(x))) else {
+                self.outs.push("bad-op".into());
+                self.outs.push("bad-op".into());
+                return;
+            };
+            self.note_request(&a);
+            self.note_request(&b);
+            let h = self.handle_of(a.k);
+            let pair = if !self.srv_mode && a.k == b.k { be.read_pair(dir_ino, h, &a, &b) } else { None };
+            let (ra, rb) = match pair {
+                Some(x) => x,
+                None => {
+                    let ra = be.read(self.srv_mode, dir_ino, h, a.plus, a.size, a.off, a.err_at, 0);
+                    let rb = be.read(self.srv_mode, dir_ino, self.handle_of(b.k), b.plus, b.size, b.off, b.err_at, 0);
+                    (ra, rb)
+                }
+            };
+            self.post(be, &a, ra, walkers);
+            self.post(be, &b, rb, walkers);
+            return;
+        }
         let Some(rd) = parse_rd(op) else {
             self.outs.push("bad-op".into());
             return;
         };
         let h = self.handle_of(rd.k);
+        self.note_request(&rd);
+        let slack = ((rd.size as u64).wrapping_mul(7).wrapping_add(rd.off) % 64) as usize;
+        let res = be.read(self.srv_mode, dir_ino, h, rd.plus, rd.size, rd.off, rd.err_at, slack);
+        self.post(be, &rd, res, walkers);
+    }
+
+    /// bookkeeping of the host's first-rewind quirk per handle
+    fn note_request(&mut self, rd: &RdOp) {
         if rd.size > 0 && !self.nod && self.open_now.contains(&rd.k) {
             let e = self.hq.entry(rd.k).or_insert((false, false));
             if !e.0 {
@@ -567,8 +648,10 @@ impl<'a> Case<'a> {
                 e.1 = false;
             }
         }
-        let slack = ((rd.size as u64).wrapping_mul(7).wrapping_add(rd.off) % 64) as usize;
-        let res = be.read(self.srv_mode, dir_ino, h, rd.plus, rd.size, rd.off, rd.err_at, slack);
+    }
+
+    /// record one reply and run the per-reply oracles
+    fn post(&mut self, be: &dyn Backend, rd: &RdOp, res: Rd, walkers: &mut Vec<Walker>) {
         match res {
             Rd::Panic => {
                 self.outs.push("panic".into());
@@ -737,7 +820,16 @@ fn gen_and_run(c: &mut Case, be: &dyn Backend, dir_ino: u64, r: &mut Prng, budge
             };
             let size = if walkers[wi].exact { need } else { size.max(need) };
             let op = format!("{}:{}:{}:{}:w{}", if plus { "rp" } else { "rd" }, walkers[wi].handle_k, size, walkers[wi].off, wi);
-            c.exec(be, dir_ino, &op, &mut walkers);
+            if !pseudo && !c.srv_mode && !c.nod && !big && walkers[wi].handle_k != 0 && r.chance(1, 8) {
+                // a second client thread reads through the same handle while this walker's reply is
+                // still being filled in
+                let noff = if c.pool.is_empty() || r.chance(1, 3) { 0 } else { *r.pick(&c.pool) };
+                let nsize = *r.pick(&[4096usize, 200, 65536]);
+                let op = format!("pp~{}~rd:{}:{}:{}", op, walkers[wi].handle_k, nsize, noff);
+                c.exec(be, dir_ino, &op, &mut walkers);
+            } else {
+                c.exec(be, dir_ino, &op, &mut walkers);
+            }
             if big && r.chance(1, 30) {
                 // a little noise on big directories too
                 let off = if c.pool.is_empty() { 0 } else { *r.pick(&c.pool) };
@@ -779,7 +871,8 @@ fn gen_and_run(c: &mut Case, be: &dyn Backend, dir_ino: u64, r: &mut Prng, budge
 fn replay_ops(c: &mut Case, be: &dyn Backend, dir_ino: u64, ops: &[String]) -> Vec<Walker> {
     let mut walkers: Vec<Walker> = Vec::new();
     for op in ops {
-        if let Some(rd) = parse_rd(op) {
+        let first = op.strip_prefix("pp~").and_then(|r| r.split('~').next()).unwrap_or(op);
+        if let Some(rd) = parse_rd(first) {
             if let Some(w) = rd.walker {
                 while walkers.len() <= w {
                     walkers.push(Walker { handle_k: rd.k, plus: rd.plus, off: 0, done: false, failed: false, got: vec![], steps: 0, ended_empty: false, overrun: false, exact: false });
